@@ -60,10 +60,14 @@ Theorem C13_exact_collinear_recovers : forall rows kept,
   forall y, plr kept y == plr rows y.
 Proof. exact exact_collinear_recovers. Qed.
 Print Assumptions C13_exact_collinear_recovers.
-(* OPEN: pipeline_rows_exact (rows inserted by the problem-table insertions are exactly collinear, so that the hypothesis
-   above holds for every table the pipeline produces) belongs to the C08 insertion model and is not proved here; moreover
-   the stored graph tables are rounded to 4 decimals, after which inserted rows are only collinear to 1e-4.  The recovery
-   clause on real tables is therefore carried by the correspondence + P13_code (code 4) on every end-to-end curve. *)
+(* pipeline_rows_exact (formerly OPEN here): PROVED on the exact tables of the insertion model -- see
+   C13_inserted_rows_collinear, C13_pipeline_rows_exact and C13_pipeline_clean_exact at the end of this file
+   (proofs/ComposeInsertCurves.v): rows added by any history of insert_temperature_interval calls are exactly collinear with
+   the original rows, so the hypothesis above needs checking on the ORIGINAL rows only, and the two end-point hypotheses
+   are not needed at all (C13_exact_collinear_recovers_any_ends).
+   OPEN (remainder): the stored graph tables are rounded to 4 decimals, after which inserted rows are collinear only to
+   1e-4; a rounded-table version of the statement is not proved.  The recovery clause on real (rounded) tables is therefore
+   still carried by the correspondence + P13_code (code 4) on every end-to-end curve. *)
 
 (* classification_sign: d = H(row j) - H(row j+1) is the enthalpy change across one interval, upper row minus lower row.
    The segment is hot (cold utility for a utility profile) iff d < -vtol (the net enthalpy grows going down the table),
@@ -115,3 +119,59 @@ Theorem C13_relative_band_raises_refuted :
   exists (c : list pt), clean_curve tol c = Err EIndex /\ 100000 * tol < spread (map fst c).
 Proof. exact clean_relative_band_raises_refuted. Qed.
 Print Assumptions C13_relative_band_raises_refuted.
+
+(* ------------------------------------------------------------------ tables that went through insertions (pipeline_rows_exact)
+   Composition with the C08 model of ProblemTable.insert_temperature_interval (model/Insert.v): `run t0 reqss` = the table
+   after a history of calls; `pts j t` = the j-th interpolated column of table t as points (temperature, value);
+   `WF tol t0` = not empty, rows more than tol apart; `populated j t0` = no NaN in column j.
+   (The import is placed here because model/Insert.v re-uses names of the statements above.) *)
+From OP Require Import model.Insert proofs.Insert proofs.InsertCurve proofs.InsertSeq proofs.InsertPL proofs.ComposeInsertCurves.
+
+(* exact_collinear_recovers without the end-point hypotheses: rows cut off at either end are covered by the constant
+   continuation of the polyline through the kept rows *)
+Theorem C13_exact_collinear_recovers_any_ends : forall rows kept,
+  strictly_desc rows -> subseq kept rows -> kept <> [] ->
+  (forall r, In r rows -> snd r == plr kept (fst r)) ->
+  forall y, plr kept y == plr rows y.
+Proof. exact exact_collinear_recovers_any_ends. Qed.
+Print Assumptions C13_exact_collinear_recovers_any_ends.
+
+(* every row of the table after ANY history of insertions -- original or inserted; inside, above or below the original
+   range -- lies exactly on the polyline through the ORIGINAL rows, in every populated interpolated column *)
+Theorem C13_inserted_rows_collinear : forall j t0, WF tol t0 -> populated j t0 ->
+  forall reqss r, In r (fst (run t0 reqss)) ->
+  exists q, hcell j r = Some q /\ q == plr (pts j t0) (rT r).
+Proof. exact (inserted_rows_collinear tol tol_nonneg). Qed.
+Print Assumptions C13_inserted_rows_collinear.
+
+(* pipeline_rows_exact: kept = ANY in-order selection of the rows after the history (what a cleaning step emits).  If the
+   ORIGINAL rows lie on the polyline through kept, then: the column is strictly descending in temperature; EVERY row,
+   inserted ones included, lies on that polyline (the hypothesis of C13_exact_collinear_recovers); the polyline through
+   kept is the column at every temperature; and the column is still the original column at every temperature. *)
+Theorem C13_pipeline_rows_exact : forall j t0, WF tol t0 -> populated j t0 ->
+  forall reqss kept, subseq kept (pts j (fst (run t0 reqss))) -> kept <> [] ->
+  (forall r, In r (pts j t0) -> snd r == plr kept (fst r)) ->
+  strictly_desc (pts j (fst (run t0 reqss)))
+  /\ (forall r, In r (pts j (fst (run t0 reqss))) -> snd r == plr kept (fst r))
+  /\ (forall y, plr kept y == plr (pts j (fst (run t0 reqss))) y)
+  /\ (forall y, plr (pts j (fst (run t0 reqss))) y == plr (pts j t0) y).
+Proof. exact (pipeline_rows_exact tol tol_nonneg). Qed.
+Print Assumptions C13_pipeline_rows_exact.
+
+(* ... with kept = the points clean_composite_curve (any tolerance ctol) emits for that column, given to it as (value,
+   temperature) points like the graph code does (swap): if the emitted polyline passes through the original rows it passes
+   through every row and is the column at every temperature *)
+Theorem C13_pipeline_clean_exact : forall j t0, WF tol t0 -> populated j t0 ->
+  forall reqss ctol out, clean_curve ctol (map swap (pts j (fst (run t0 reqss)))) = Ok out -> out <> [] ->
+  (forall r, In r (pts j t0) -> snd r == plr (map swap out) (fst r)) ->
+  (forall r, In r (pts j (fst (run t0 reqss))) -> snd r == plr (map swap out) (fst r))
+  /\ (forall y, plr (map swap out) y == plr (pts j (fst (run t0 reqss))) y).
+Proof. exact (pipeline_clean_exact tol tol_nonneg). Qed.
+Print Assumptions C13_pipeline_clean_exact.
+
+(* non-vacuity: the four-row table of C08 after a call that adds a row inside, one above and two below; cleaning the
+   eight-row column gives back exactly the four original rows *)
+Theorem C13_pipeline_example :
+  clean_curve tol (map swap (pts 0 (fst (run ex_t [[50; 120; -10; -30]])))) = Ok (map swap (pts 0 ex_t)).
+Proof. exact ex_pipeline_clean. Qed.
+Print Assumptions C13_pipeline_example.
